@@ -1,8 +1,10 @@
-(* GENERATED on every run by tools/rs2v_loops.py from /repo/src/buint/{overflowing,const_trait_fillers,mul,mod,ops,checked}.rs.
-   Do not edit.  Proofs/LoopsTie.v proves each function equal to the hand-written model.
-   Vocabulary: Model/Imp.v (control flow), Prim.v, Model/DigitPrims.v, Model/LoopPrims.v, Generated/DigitGen.v. *)
+(* GENERATED on every run by tools/rs2v_loops.py from /repo/src/buint/{overflowing,const_trait_fillers,mul,mod,ops,checked,wrapping}.rs
+   and /repo/src/bint/overflowing.rs.  Do not edit.  Proofs/LoopsTie*.v prove each function equal to the hand-written model.
+   Vocabulary: Model/Imp.v (control flow), Prim.v, Model/DigitPrims.v, Model/LoopPrims.v, Generated/DigitGen.v;
+   calls of $BUint methods that are not re-translated are calls of the hand-written model (qualified: Mul.U_overflowing_mul ..). *)
 From Bnum Require Import Base Prim.
 From Bnum.Model Require Import DigitPrims LoopPrims Core Imp.
+From Bnum.Model Require Mul.
 From Bnum.Generated Require Import DigitGen.
 
 Module Loops.
@@ -700,5 +702,242 @@ Definition div_rem_digit (w N : Z) (fuel : nat) (self : list Z) (rhs : Z) : res 
       Done (out, rem)
   | Returned t4' => Done t4'
   end.
+
+(* src/buint/mod.rs: fn from_digit *)
+Definition from_digit (w N : Z) (fuel : nat) (digit : Z) : res (list Z) :=
+  let out := (ZERO (Z.to_nat N)) in
+  out <- arr_set out 0 digit ;;
+  Done out.
+
+(* src/bint/overflowing.rs: fn overflowing_add *)
+Definition I_overflowing_add (w N : Z) (fuel : nat) (self : list Z) (rhs : list Z) : res (list Z * bool) :=
+  let out := (ZERO (Z.to_nat N)) in
+  let carry := false in
+  let self_digits := self in
+  let rhs_digits := rhs in
+  let i := 0 in
+  t4' <- while_loop (R := (list Z * bool)) fuel
+    (fun '(out, carry, i) => true)
+    (fun '(out, carry, i) =>
+      t1' <- usub N 1 ;;
+      if (i <? t1') then (
+        t2' <- arr_get self_digits i ;;
+        t3' <- arr_get rhs_digits i ;;
+        let '(sum, c) := (DigitGen.carrying_add w t2' t3' carry) in
+        out <- arr_set out i sum ;;
+        let carry := c in
+        let i := (i + 1) in
+        Done (Continue (out, carry, i))
+      ) else (
+        Done (Break (out, carry, i))
+      ))
+    (out, carry, i) ;;
+  match t4' with
+  | Exited (out, carry, i) =>
+      t6' <- usub N 1 ;;
+      t7' <- arr_get self_digits t6' ;;
+      t8' <- usub N 1 ;;
+      t9' <- arr_get rhs_digits t8' ;;
+      let '(sum, carry) := (DigitGen.carrying_add_signed w (sd w t7') (sd w t9') carry) in
+      t10' <- usub N 1 ;;
+      out <- arr_set out t10' (ud w sum) ;;
+      Done (out, carry)
+  | Returned t5' => Done t5'
+  end.
+
+(* src/bint/overflowing.rs: fn overflowing_sub *)
+Definition I_overflowing_sub (w N : Z) (fuel : nat) (self : list Z) (rhs : list Z) : res (list Z * bool) :=
+  let out := (ZERO (Z.to_nat N)) in
+  let borrow := false in
+  let self_digits := self in
+  let rhs_digits := rhs in
+  let i := 0 in
+  t4' <- while_loop (R := (list Z * bool)) fuel
+    (fun '(out, borrow, i) => true)
+    (fun '(out, borrow, i) =>
+      t1' <- usub N 1 ;;
+      if (i <? t1') then (
+        t2' <- arr_get self_digits i ;;
+        t3' <- arr_get rhs_digits i ;;
+        let '(sub, b) := (DigitGen.borrowing_sub w t2' t3' borrow) in
+        out <- arr_set out i sub ;;
+        let borrow := b in
+        let i := (i + 1) in
+        Done (Continue (out, borrow, i))
+      ) else (
+        Done (Break (out, borrow, i))
+      ))
+    (out, borrow, i) ;;
+  match t4' with
+  | Exited (out, borrow, i) =>
+      t6' <- usub N 1 ;;
+      t7' <- arr_get self_digits t6' ;;
+      t8' <- usub N 1 ;;
+      t9' <- arr_get rhs_digits t8' ;;
+      let '(sub, borrow) := (DigitGen.borrowing_sub_signed w (sd w t7') (sd w t9') borrow) in
+      t10' <- usub N 1 ;;
+      out <- arr_set out t10' (ud w sub) ;;
+      Done (out, borrow)
+  | Returned t5' => Done t5'
+  end.
+
+(* src/bint/overflowing.rs: fn overflowing_neg *)
+Definition I_overflowing_neg (w N : Z) (fuel : nat) (self : list Z) : res (list Z * bool) :=
+  let i := 0 in
+  t6' <- while_loop (R := (list Z * bool)) fuel
+    (fun '(self, i) => true)
+    (fun '(self, i) =>
+      t1' <- usub N 1 ;;
+      if (i <? t1') then (
+        t2' <- arr_get self i ;;
+        let '(s, o) := (u_ovf_add w (u_not w t2') 1) in
+        self <- arr_set self i s ;;
+        if (negb o) then (
+          let i := (i + 1) in
+          t4' <- while_loop (R := (list Z * bool)) fuel
+            (fun '(self, i) => (i <? N))
+            (fun '(self, i) =>
+              t3' <- arr_get self i ;;
+              self <- arr_set self i (u_not w t3') ;;
+              let i := (i + 1) in
+              Done (Continue (self, i)))
+            (self, i) ;;
+          match t4' with
+          | Exited (self, i) =>
+              Done (Return (self, false))
+          | Returned t5' => Done (Return t5')
+          end
+        ) else (
+          let i := (i + 1) in
+          Done (Continue (self, i))
+        )
+      ) else (
+        Done (Break (self, i))
+      ))
+    (self, i) ;;
+  match t6' with
+  | Exited (self, i) =>
+      t8' <- arr_get self i ;;
+      let '(s, o) := (s_ovf_add w (sd w (u_not w t8')) 1) in
+      self <- arr_set self i (ud w s) ;;
+      Done (self, o)
+  | Returned t7' => Done t7'
+  end.
+
+(* src/buint/overflowing.rs: fn overflowing_pow *)
+Definition overflowing_pow (w N : Z) (fuel : nat) (self : list Z) (pow : Z) : res (list Z * bool) :=
+  if (pow =? 0) then (
+    t1' <- from_digit w N fuel 1 ;;
+    Done (t1', false)
+  ) else (
+    let overflow := false in
+    t2' <- from_digit w N fuel 1 ;;
+    let y := t2' in
+    t3' <- while_loop (R := (list Z * bool)) fuel
+      (fun '(self, y, overflow, pow) => (pow >? 1))
+      (fun '(self, y, overflow, pow) =>
+        if ((ix_and pow 1) =? 1) then (
+          let '(prod, o) := (Mul.U_overflowing_mul w y self) in
+          let overflow := (orb overflow o) in
+          let y := prod in
+          let '(prod, o) := (Mul.U_overflowing_mul w self self) in
+          let overflow := (orb overflow o) in
+          let self := prod in
+          let pow := (ix_shr pow 1) in
+          Done (Continue (self, y, overflow, pow))
+        ) else (
+          let '(prod, o) := (Mul.U_overflowing_mul w self self) in
+          let overflow := (orb overflow o) in
+          let self := prod in
+          let pow := (ix_shr pow 1) in
+          Done (Continue (self, y, overflow, pow))
+        ))
+      (self, y, overflow, pow) ;;
+    match t3' with
+    | Exited (self, y, overflow, pow) =>
+        let '(prod, o) := (Mul.U_overflowing_mul w self y) in
+        Done (prod, (orb o overflow))
+    | Returned t4' => Done t4'
+    end
+  ).
+
+(* src/buint/checked.rs: fn checked_pow *)
+Definition checked_pow (w N : Z) (fuel : nat) (self : list Z) (pow : Z) : res (option (list Z)) :=
+  if (pow =? 0) then (
+    t1' <- from_digit w N fuel 1 ;;
+    Done (Some t1')
+  ) else (
+    t2' <- from_digit w N fuel 1 ;;
+    let y := t2' in
+    t3' <- while_loop (R := (option (list Z))) fuel
+      (fun '(self, y, pow) => (pow >? 1))
+      (fun '(self, y, pow) =>
+        if ((ix_and pow 1) =? 1) then (
+          match (Mul.U_checked_mul w self y) with
+          | Some m => (
+              let y := m in
+              match (Mul.U_checked_mul w self self) with
+              | Some m => (
+                  let self := m in
+                  let pow := (ix_shr pow 1) in
+                  Done (Continue (self, y, pow))
+                )
+              | None => (
+                  Done (Return None)
+                )
+              end
+            )
+          | None => (
+              Done (Return None)
+            )
+          end
+        ) else (
+          match (Mul.U_checked_mul w self self) with
+          | Some m => (
+              let self := m in
+              let pow := (ix_shr pow 1) in
+              Done (Continue (self, y, pow))
+            )
+          | None => (
+              Done (Return None)
+            )
+          end
+        ))
+      (self, y, pow) ;;
+    match t3' with
+    | Exited (self, y, pow) =>
+        Done (Mul.U_checked_mul w self y)
+    | Returned t4' => Done t4'
+    end
+  ).
+
+(* src/buint/wrapping.rs: fn wrapping_pow *)
+Definition wrapping_pow (w N : Z) (fuel : nat) (self : list Z) (pow : Z) : res (list Z) :=
+  if (pow =? 0) then (
+    t1' <- from_digit w N fuel 1 ;;
+    Done t1'
+  ) else (
+    t2' <- from_digit w N fuel 1 ;;
+    let y := t2' in
+    t3' <- while_loop (R := list Z) fuel
+      (fun '(self, y, pow) => (pow >? 1))
+      (fun '(self, y, pow) =>
+        if ((ix_and pow 1) =? 1) then (
+          let y := (Mul.U_wrapping_mul w self y) in
+          let self := (Mul.U_wrapping_mul w self self) in
+          let pow := (ix_shr pow 1) in
+          Done (Continue (self, y, pow))
+        ) else (
+          let self := (Mul.U_wrapping_mul w self self) in
+          let pow := (ix_shr pow 1) in
+          Done (Continue (self, y, pow))
+        ))
+      (self, y, pow) ;;
+    match t3' with
+    | Exited (self, y, pow) =>
+        Done (Mul.U_wrapping_mul w self y)
+    | Returned t4' => Done t4'
+    end
+  ).
 
 End Loops.
